@@ -285,6 +285,9 @@ class Container:
         species = set()
         for name, field in self._data_dictionary.items():
             if Dimension.SPECIES in field.dimensions:
+                # Optional fields may be unset.
+                if self._data[name] is None:
+                    continue
                 assert isinstance(self._data[name], SpeciesValues)
                 species.update(self._data[name].keys())
         return sorted(species)
